@@ -262,6 +262,7 @@ func (r *TaskRunner) contextForTask(t *task.Task) (c *ExecutionContext, err erro
 		}
 
 		r.cleanupList.Store(t.Context, c)
+		c.cancelWith(r.ctx)
 	}
 
 	err = c.Up()
